@@ -433,6 +433,52 @@ def ob_cleanup():
     return h
 
 
+class IniStub:
+    """what configparser hands PackageDefinition.parse_provide_section: sections of (key, value) pairs, keys lower-cased (optionxform), values as written"""
+    def __init__(self, sections): self.s = sections
+    def has_section(self, n): return n in self.s
+    def __getitem__(self, n): return self.s[n]
+
+
+def ob_provide_section():
+    """from the [provide] section of a wrap file to the answer dependency() / find_program() gets: the real PackageDefinition.parse_provide_section, Resolver.add_wrap,
+    find_dep_provider, get_varname, find_program_provider over symbolic names. A dependency the wrap names - in `dependency_names = A, B` or as `A = variable`,
+    in whatever letter case - has the wrap as provider for the spelling the build file uses; a name it does not mention has none"""
+    def h():
+        form = choose(3, 'how the wrap names it')          # dependency_names = N1<sep>N2 | N1 = variable | program_names = N1<sep>N2
+        AB = 'aB2'
+        n1 = sym_str(1 + choose(2, 'len1'), 'name1', alphabet=AB); n2 = sym_str(1, 'name2', alphabet=AB)
+        sep = [',', ', ', ' ,'][choose(3, 'separator')]
+        if form == 0: sect = {'dependency_names': n1 + sep + n2}
+        elif form == 1: sect = {n1.lower(): 'n1_dep'}
+        else:
+            assume(not decide(bt_any(n1 == n2)))          # the same program twice in one list is reported as two wraps providing it: outside this claim
+            sect = {'program_names': n1 + sep + n2}
+        pd = object.__new__(W.PackageDefinition)
+        pd.name = 'sub'; pd.provided_deps = {'sub': None}; pd.provided_programs = []
+        try:
+            pd.parse_provide_section(IniStub({'provide': sect}))
+        except WrapException:
+            check(False, 'a well-formed [provide] section is accepted'); return
+        r = object.__new__(W.Resolver)
+        r.provided_deps = {}; r.provided_programs = {}; r.wrapdb_provided_deps = {}; r.wrapdb_provided_programs = {}; r.wraps = {'sub': pd}; r.wrapdb = {}
+        r.add_wrap(pd)
+        asked = [n1, n2][choose(2, 'which name the build file asks for')] if form != 1 else n1
+        if form in (0, 1):
+            got = r.find_dep_provider(asked)
+            check(got[0] == 'sub', 'a dependency named in [provide] has the wrap as its provider, whatever its letter case')
+            check(got[1] == (None if form == 0 else 'n1_dep'), 'the variable name is the one the wrap gives (none for dependency_names)')
+            other = sym_str(1, 'other', alphabet='aBz')
+            assume(not decide(bt_any(other.lower() == n1.lower()))); assume(not decide(bt_any(other.lower() == n2.lower())) if form == 0 else True)
+            check(r.find_dep_provider(other) == (None, None), 'a name the wrap does not mention has no provider')
+            cover('dependency')
+        else:
+            check(r.find_program_provider([asked]) == 'sub', 'a program named in [provide] has the wrap as its provider')
+            check(r.find_dep_provider(asked)[0] is None, 'a program name is not a dependency name')
+            cover('program')
+    return h
+
+
 def obligations(tier):
     out = [Obligation('policy', ob_policy(False), dict(cells='wrap_mode x force_fallback_for(name,subproject) x required x allow_fallback x fallback kwarg (absent|[]|[sub]|[sub,var]) x wrap provides x persistent dependency cache of an earlier run x system x subproject ok x override'),
                       labels=('system', 'subproject', 'notfound', 'error', 'arg-error'), max_paths=3000000),
@@ -443,5 +489,6 @@ def obligations(tier):
            Obligation('sources/source', ob_sources('source'), dict(kinds='url | url+fallback url | packagefiles', faults='existence, digests, download failures symbolic'), labels=('returned', 'refused')),
            Obligation('sources/patch', ob_sources('patch'), dict(kinds='url | url+fallback url | packagefiles'), labels=('returned', 'refused')),
            Obligation('sources/cleanup-after-failed-patch', ob_cleanup(), dict(patch_outcome='ok | WrapException | OSError | EOFError | ValueError', diff_outcome='same', upstream_buildfile='symbolic'),
-                      labels=('cleaned', 'resolved'))]
+                      labels=('cleaned', 'resolved')),
+           Obligation('provide-section', ob_provide_section(), dict(real='PackageDefinition.parse_provide_section, Resolver.add_wrap / find_dep_provider / find_program_provider', configparser='stub: keys lower-cased, values as written', names='1-2 and 1 chars over {a, B, 2}', separator="',' | ', ' | ' ,'", forms='dependency_names | name = variable | program_names'), labels=('dependency', 'program'))]
     return out
